@@ -330,9 +330,8 @@ class Sweep:
         head = f"x = unyt_array(np.array({vals!r}), {ua!r})\n"
         keyp = f"{eq}|{a}->{b}"
         before = (x.d.tobytes(), str(x.units), x.dtype.str)
-        full = dict(self.defaults(cls))
-        full.update(kw)
-        mu, ga = full.get("mu", 0.6), full.get("gamma", 5.0 / 3.0)
+        # documented defaults (class docstrings): mu = 0.6, gamma = 5/3 — not read off the signature
+        mu, ga = kw.get("mu", 0.6), kw.get("gamma", 5.0 / 3.0)
 
         def pure(after_what):
             if (x.d.tobytes(), str(x.units), x.dtype.str) != before:
@@ -424,7 +423,7 @@ class Sweep:
                           "equivalence": eq, "units": [ua, ub], "kw": kw, "x_si": x_si.tolist()})
         # --- there and back ------------------------------------------------------------------
         try:
-            back = r.to_equivalent(ua, eq, **kw)
+            back = r.copy().to_equivalent(ua, eq, **kw)  # a copy: the way back must not disturb `r` for the checks below
             e = relerr(back.d, x.d)
             tol = LAW_RTOL * max(1.0, min(cond, 1e12))
             if not e <= tol or back.units != Ua:
@@ -444,7 +443,7 @@ class Sweep:
                 continue
             uc = rng.choice(pc_)
             try:
-                via = r.to_equivalent(uc, eq, **kw)
+                via = r.copy().to_equivalent(uc, eq, **kw)
                 direct = x.to_equivalent(uc, eq, **kw)
                 e = relerr(via.d, direct.d)
                 if not e <= LAW_RTOL or via.units != direct.units:
@@ -663,6 +662,32 @@ class Sweep:
                     for t in OFFSET_TARGETS:
                         cases.append((eq, t, po[0], {}))  # offset unit as input
                         cases.append((eq, po[0], t, {}))  # offset unit as target
+        # convert_to_base / convert_to_mks / convert_to_cgs thread `equivalence=` to a request for the
+        # same dimension: the equivalence must not matter (direct oracle)
+        for eq, cls in self.reg.items():
+            d = cls._dims[0]
+            p = self.pool(self.dn(d), d)
+            if not p:
+                continue
+            ua = rng.choice(p)
+            v = 1.5 if eq == "lorentz" else rng.uniform(1.0, 10.0) * 10 ** rng.randint(-3, 3)
+            for meth in ("convert_to_mks", "convert_to_cgs", "convert_to_base"):
+                try:
+                    y1 = unyt_array(np.array([v]), ua)
+                    getattr(y1, meth)(equivalence=eq)
+                    y2 = unyt_array(np.array([v]), ua)
+                    getattr(y2, meth)()
+                    ok = relerr(y1.d, y2.d) <= SAME_RTOL and y1.units == y2.units
+                    what = "differs from the call without equivalence"
+                except Exception as e:
+                    ok = False
+                    what = "raised " + core.exc_name(e)
+                chk.count("base-route:" + meth)
+                chk.case(("base-route", eq, meth))
+                if not ok:
+                    chk.fail(f"same-dimension|{eq}|{meth}", f"{meth}(equivalence={eq!r}) on {ua} {what}",
+                             {"python": snippet(f"y1 = unyt_array(np.array([{v!r}]), {ua!r}); y1.{meth}(equivalence={eq!r})\ny2 = unyt_array(np.array([{v!r}]), {ua!r}); y2.{meth}()\n"
+                                                 f"assert relerr(y1.d, y2.d) <= {SAME_RTOL!r} and y1.units == y2.units, (y1, y2)\n"), "equivalence": eq, "units": [ua]})
         for (eq, ua, ub, kw) in cases:
             v = rng.uniform(1.0, 10.0) * 10 ** rng.randint(-3, 3)
             if eq == "lorentz":
@@ -785,7 +810,7 @@ def run(tier, seed):
         check_tables(chk, X, model)
 
     sw = Sweep(chk, tier, rng, X, collect_model=model is not None)
-    sw.covered(n_units=3 if tier == "quick" else 14)
+    sw.covered(n_units=3 if tier == "quick" else 150)
     sw.uncovered(per_equiv=24 if tier == "quick" else None)
     sw.wrapper_routes()
     sw.offset_inputs()
